@@ -17,6 +17,7 @@ import (
 type c10Req struct {
 	Op      string `json:"op"`
 	Blocked bool   `json:"blocked,omitempty"` // pre only: handler waits for the gate
+	Panics  bool   `json:"panics,omitempty"`  // pre only: handler panics after it has answered (recovery is enabled)
 }
 
 type c10Case struct {
@@ -28,6 +29,11 @@ type c10Case struct {
 	GateDelayMs  int      `json:"gate_delay_ms"`
 	UnbindBody   []byte   `json:"unbind_body,omitempty"`   // content octets of the Unbind (normally none)
 	UnbindPanics bool     `json:"unbind_panics,omitempty"` // the unbind handler panics (recovery is enabled)
+	// WriteTimeoutMs > 0: the server is configured WithWriteTimeout of that many ms and the client sends its
+	// pipeline only after the deadline has passed: every response write of the connection fails. What the Unbind
+	// demands (handler once, nothing after it served, connection closed) is independent of that; the responses
+	// to the earlier requests are then not demanded.
+	WriteTimeoutMs int `json:"write_timeout_ms,omitempty"`
 }
 
 func c10Exec(c c10Case, st *lab.Stats) *lab.Fail {
@@ -35,9 +41,13 @@ func c10Exec(c c10Case, st *lab.Stats) *lab.Fail {
 	g := newGate()
 	defer g.open()
 	blockedSet := map[int64]bool{}
+	panicSet := map[int64]bool{}
 	for i, q := range c.Pre {
 		if q.Blocked {
 			blockedSet[int64(i+1)] = true
+		}
+		if q.Panics {
+			panicSet[int64(i+1)] = true
 		}
 	}
 	var mu sync.Mutex
@@ -63,6 +73,10 @@ func c10Exec(c c10Case, st *lab.Stats) *lab.Fail {
 				_ = respondOK(w, r)
 			}
 			log.add(event{Kind: "exit", ConnID: r.ConnectionID(), MsgID: id, ReqID: r.ID, Label: label})
+			if panicSet[id] && label != "unbind" && kind != "unbind" {
+				var m map[string]int
+				m["boom"] = 1 // an earlier handler of the connection panics (recovered by the server)
+			}
 		}
 	}
 	mux, _ := gldap.NewMux()
@@ -80,7 +94,7 @@ func c10Exec(c c10Case, st *lab.Stats) *lab.Fail {
 		_ = mux.DefaultRoute(handler("default"))
 	}
 	closed := make(chan int, 4)
-	srv, err := lab.StartServer(mux, lab.ServerOpts{OnClose: func(id int) {
+	srv, err := lab.StartServer(mux, lab.ServerOpts{WriteTimeout: time.Duration(c.WriteTimeoutMs) * time.Millisecond, OnClose: func(id int) {
 		log.add(event{Kind: "onclose", ConnID: id})
 		closed <- id
 	}})
@@ -119,6 +133,13 @@ func c10Exec(c c10Case, st *lab.Stats) *lab.Fail {
 	st.Case(len(c.Post) >= 1 && len(c.Split) == 0, lab.JSONKey(c), fmt.Sprintf("pre=%d", len(c.Pre)), fmt.Sprintf("post=%d", len(c.Post)),
 		fmt.Sprintf("blocked=%d", min(nblocked, 3)), fmt.Sprintf("unbindroute=%v", c.UnbindRoute), fmt.Sprintf("defaultroute=%v", c.DefaultRoute), fmt.Sprintf("split=%v", len(c.Split) > 0))
 	st.Sample(c)
+	if c.WriteTimeoutMs > 0 {
+		st.Class("write-deadline-passed-before-the-pipeline")
+		time.Sleep(time.Duration(c.WriteTimeoutMs+15) * time.Millisecond)
+	}
+	if len(panicSet) > 0 {
+		st.Class("earlier-handler-panicked")
+	}
 	go sendSplit(cl, buf, c.Split)
 	go func() {
 		time.Sleep(time.Duration(c.GateDelayMs) * time.Millisecond)
@@ -170,6 +191,9 @@ func c10Exec(c c10Case, st *lab.Stats) *lab.Fail {
 	// promises. Then only duplicates count; with a well-behaved client every earlier response must arrive.
 	lossy := len(c.Post) > 0 && how == "reset"
 	for i := range c.Pre {
+		if c.WriteTimeoutMs > 0 && got[int64(i+1)] <= 1 {
+			continue // the write deadline had passed: the response is not demanded
+		}
 		if lossy && got[int64(i+1)] == 0 {
 			st.Class("pre-response-lost-to-reset(client sent data behind its unbind)")
 			continue
@@ -213,7 +237,7 @@ func TestC10(t *testing.T) {
 	ops := []string{"bind", "search", "modify", "add", "delete", "extended"}
 	lab.Prop[c10Case]{
 		ID: "C10", Part: "unbind",
-		Rule: "rapid: pipelines <0..8 requests (one case in eight: 15..128 requests whose handlers are ALL still blocked)> Unbind <0..8 requests, possibly further Unbinds>, written in one write() or split at generated byte offsets; unbind route absent/present (its handler may panic, recovery enabled), default route absent/present; the Unbind occasionally carries (ill-formed) content octets; any subset of the earlier handlers blocked on a gate that opens 0..40 ms later; oracle = unbind handler exactly once iff registered, no handler entry and no response for anything after the Unbind, no response to the Unbind, every earlier request answered once, connection closed and only after the blocked handlers returned (global sequence numbers); non-trivial = >= 1 request pipelined behind the Unbind in the same write(); distinct by hash",
+		Rule: "rapid: pipelines <0..8 requests (one case in eight: 15..128 requests whose handlers are ALL still blocked)> Unbind <0..8 requests, possibly further Unbinds>, written in one write() or split at generated byte offsets; unbind route absent/present (its handler may panic, recovery enabled), default route absent/present; the Unbind occasionally carries (ill-formed) content octets; any subset of the earlier handlers blocked on a gate that opens 0..40 ms later; one earlier handler in six panics after answering (recovered); one case in six runs against a server whose write deadline (1..20 ms) has passed before the pipeline is sent, so that every response write fails (earlier responses then not demanded); oracle = unbind handler exactly once iff registered, no handler entry and no response for anything after the Unbind, no response to the Unbind, every earlier request answered once, connection closed and only after the blocked handlers returned (global sequence numbers); non-trivial = >= 1 request pipelined behind the Unbind in the same write(); distinct by hash",
 		Gen: func(t *rapid.T) c10Case {
 			c := c10Case{
 				UnbindRoute:  rapid.Bool().Draw(t, "unbindroute"),
@@ -227,7 +251,8 @@ func TestC10(t *testing.T) {
 				np = rapid.SampledFrom([]int{15, 16, 17, 32, 64, 128}).Draw(t, "ncrowd")
 			}
 			for i := 0; i < np; i++ {
-				c.Pre = append(c.Pre, c10Req{Op: rapid.SampledFrom(ops).Draw(t, "preop"), Blocked: crowd || rapid.IntRange(0, 2).Draw(t, "blocked") == 0})
+				c.Pre = append(c.Pre, c10Req{Op: rapid.SampledFrom(ops).Draw(t, "preop"), Blocked: crowd || rapid.IntRange(0, 2).Draw(t, "blocked") == 0,
+					Panics: !crowd && rapid.IntRange(0, 5).Draw(t, "prepanics") == 0})
 			}
 			npo := rapid.IntRange(0, 8).Draw(t, "npost")
 			for i := 0; i < npo; i++ {
@@ -237,6 +262,9 @@ func TestC10(t *testing.T) {
 				c.UnbindBody = rapid.SampledFrom([][]byte{{0}, {5, 0}, {0, 0, 0}}).Draw(t, "body")
 			}
 			c.UnbindPanics = c.UnbindRoute && rapid.IntRange(0, 4).Draw(t, "unbindpanics") == 0
+			if rapid.IntRange(0, 5).Draw(t, "wtimeout") == 0 {
+				c.WriteTimeoutMs = rapid.SampledFrom([]int{1, 5, 20}).Draw(t, "wtimeoutms")
+			}
 			if rapid.IntRange(0, 2).Draw(t, "split") == 0 {
 				c.Split = rapid.SliceOfN(rapid.IntRange(1, 999), 1, 4).Draw(t, "cuts")
 			}
